@@ -190,7 +190,13 @@ def check_C01(tier, seed):
                             "deep nesting family, guard-page placement. non-trivial = grammar-valid texts of >= 3 classes")
     jt_replay("C01", tier, seed, res, classes=("panic", "crash", "leak"))
     jt_record_validate("C01", tier, seed + 3, res, 4000 if tier == QUICK else 300000, checks=("panic",))
+    # lazy lookups / iterators on generated, mutated and block-edge documents: panic and crash observation
+    lg_record_validate("C01", tier, seed + 4, res, 3000 if tier == QUICK else 200000, ("panic",))
+    # the serializer in a plain optimised build (code under cfg(not(debug_assertions))): strings ending against an inaccessible page
+    generic_record_validate("C01", res, "sr-record", ["--seed", seed + 5, "--n", 2000 if tier == QUICK else 100000, "--mode", "ser"], "Trace_Ser", {}, "ser_fast", profile="fast")
     nest_family(res, tier)
+    # scale: containers and strings past 2^16 / 2^24, documents of growing size on one thread (thread-local parse buffers)
+    big_replay("C01", tier, res)
     return res.finish()
 
 
@@ -764,6 +770,40 @@ def check_C08(tier, seed):
     return res.finish()
 
 
+def writer_replay(prop, tier, res):
+    """Writer.tla: every call sequence {write, reserve+commit, flush} over the writer stacks (every buffering choice of io::BufWriter,
+    failing sinks): InOrder / AfterFlush / FailingSinkFails are TLC invariants; every maximal sequence is replayed through the public WriteExt API"""
+    d = wdir("beh")
+    path = os.path.join(d, "writer.ndjson")
+    stats_p = path + ".stats"
+    src = [os.path.join(vlib.TLA, f) for f in ("Writer.tla", "MC_Writer.tla", "MC_Writer.cfg")]
+    stamp = "".join(str(os.path.getmtime(f)) for f in src)
+    st = None
+    if os.path.exists(path) and os.path.exists(stats_p):
+        st = json.load(open(stats_p))
+        st = dict(st, reused_from_cache=True) if st.get("stamp") == stamp else None
+    if st is None:
+        st = tlc_mc("MC_Writer", {"EmitOn": "TRUE"}, emit_path=path, tag="MC_Writer", workers=4)
+        st["stamp"] = stamp
+        st.pop("log_tail", None)
+        json.dump(st, open(stats_p, "w"))
+    exe = build_harness()
+    out = fresh(prop, "writer")
+    rc, o, err = run_vh(exe, ["wr-replay", "--beh", path, "--out", out])
+    if rc != 0:
+        raise ToolError("wr-replay failed rc=%s %s" % (rc, err[-300:]))
+    summ = json.load(open(os.path.join(out, "summary.0.json")))
+    for m in summ["mismatches"]:
+        res.add_mismatch(m)
+    c = res.coverage
+    c["states"] += st["distinct"]
+    c["transitions"] += st["states"]
+    c["evaluations"] += summ["behaviours"]
+    c["traces_validated_against_impl"] += summ["behaviours"]
+    c.setdefault("tlc", {})["MC_Writer"] = {k: st[k] for k in st if k in ("states", "distinct", "seconds", "emitted", "reused_from_cache")}
+    c.setdefault("replay", {})["writer"] = {"behaviours": summ["behaviours"], "per_stack": summ["per_stack"]}
+
+
 def check_C05(tier, seed):
     res = Result("C05", tier, seed, "model_checking")
     res.coverage["rule"] = ("values of a generic tree type whose Serialize impl issues every serde call shape (seq/map with and without known length, tuple, struct, the four variant shapes, newtype, "
@@ -775,6 +815,7 @@ def check_C05(tier, seed):
     # the same recorder in a plain optimised build (no debug assertions): the string escaper reads its source directly there
     # (cfg(not(debug_assertions))), so the strings ending against the inaccessible page exercise its page-crossing logic
     generic_record_validate("C05", res, "sr-record", ["--seed", seed + 5, "--n", 2500 if tier == QUICK else 150000, "--mode", "ser"], "Trace_Ser", {}, "ser_fast", profile="fast")
+    writer_replay("C05", tier, res)
     return res.finish()
 
 
